@@ -40,6 +40,7 @@ Events(s) ==
     \cup (IF Len(s.wds) >= 1 /\ s.l1.nextOut["1"] <= 2 THEN {Propose(s, "p1")} ELSE {})
     \cup (IF s.l1.now < 4 THEN {Advance(2)} ELSE {})
     \cup {Challenge("c1", 1)}
+    \cup (IF s.l1.now >= 4 THEN {[chain |-> c, e |-> [type |-> "ExportImport"]] : c \in {"L1", "L2"}} ELSE {})   \* either chain restarts from its exported genesis; the walker re-executes every enabled event on it
     \cup {Claim(s, "x", i, out) : i \in 1..Len(s.wds), out \in {o \in 1..2 : Has(s.trees, K(o))}}
 
 ASSUME PrintT("META " \o ToJson([l1 |-> [bkeys |-> {"1", "2"}, accts |-> L1Accts, denoms |-> L1Denoms, funded |-> {"u1", "u2"}, amt0 |-> 4, chans |-> {"ch1"}, devs |-> Devs, maxB |-> 1, feeDenom |-> "d1"],
